@@ -154,3 +154,8 @@ Lemma pow256_8 : 256 ^ N.of_nat 8 = 18446744073709551616. Proof. reflexivity. Qe
 Definition le16 := le 2.
 Definition le32 := le 4.
 Definition le64 := le 8.
+
+(* List.rev is quadratic when run; the executable models use the linear one *)
+Definition frev {A} (l : list A) : list A := rev_append l [].
+Lemma frev_rev {A} (l : list A) : frev l = rev l.
+Proof. unfold frev. symmetry. apply rev_alt. Qed.
